@@ -17,11 +17,13 @@ def enc_rat(x):
     if isinstance(x, (int, np.integer)):
         return str(int(x))
     if isinstance(x, (float, np.floating)):
-        if np.isnan(x):
+        x = float(x)
+        if x != x:
             return 'nan'
-        if np.isinf(x):
+        if x in (float('inf'), float('-inf')):
             raise ValueError('inf cannot be shipped')
-        x = Fraction(float(x))
+        n, d = x.as_integer_ratio()
+        return str(n) if d == 1 else '%d/%d' % (n, d)
     if isinstance(x, Fraction):
         return str(x.numerator) if x.denominator == 1 else '%d/%d' % (x.numerator, x.denominator)
     raise TypeError(type(x))
@@ -37,6 +39,8 @@ def enc_bits(bs):
     return s if s else 'e'
 
 def enc_list(xs, f=enc_rat):
+    if isinstance(xs, np.ndarray) and f is enc_rat:
+        xs = xs.tolist()
     return '[' + ','.join(f(x) for x in xs) + ']'
 
 def enc_ints(xs):
